@@ -158,3 +158,100 @@ def shared_mutables(a, b):
     ia.pop("__keep__")
     ib.pop("__keep__")
     return [(ia[i], ib[i]) for i in ia if i in ib]
+
+
+# ---------------------------------------------------------------------------------------------
+# Observable (public-API) fingerprint of the library's own objects.
+#
+# "Unchanged" and "equal" in the properties are about what a caller can observe, not about private
+# attributes: a legitimately added private cache (memoised views, a key index, __slots__) must not look
+# like a mutation.  Libraries, blocks, fields and formats are therefore described through their public
+# attributes; anything else (values, metadata contents, NameParts, ...) falls back to the structural walk.
+
+_PUBLIC = None
+
+
+def _public_table():
+    global _PUBLIC
+    if _PUBLIC is None:
+        from .repo import library as L, model as M, writer as W
+        _PUBLIC = [
+            # most specific first
+            (M.DuplicateBlockKeyBlock, ("start_line", "raw", "parser_metadata", "error", "key", "previous_block", "ignore_error_block")),
+            (M.DuplicateFieldKeyBlock, ("start_line", "raw", "parser_metadata", "error", "duplicate_keys", "ignore_error_block")),
+            (M.ParsingFailedBlock, ("start_line", "raw", "parser_metadata", "error", "ignore_error_block")),
+            (M.Entry, ("start_line", "raw", "parser_metadata", "entry_type", "key", "fields")),
+            (M.String, ("start_line", "raw", "parser_metadata", "key", "value")),
+            (M.Preamble, ("start_line", "raw", "parser_metadata", "value")),
+            (M.ExplicitComment, ("start_line", "raw", "parser_metadata", "comment")),
+            (M.ImplicitComment, ("start_line", "raw", "parser_metadata", "comment")),
+            (M.Field, ("key", "value", "start_line")),
+            (W.BibtexFormat, ("indent", "value_column", "block_separator", "trailing_comma", "parsing_failed_comment")),
+            (L.Library, ("blocks",)),
+        ]
+    return _PUBLIC
+
+
+def public_fingerprint(obj):
+    table = _public_table()
+    memo = {}
+    keep = []
+
+    def walk(o, depth=0):
+        if _is_atom(o):
+            return (type(o).__name__, o)
+        if isinstance(o, type):
+            return ("class", o.__module__, o.__qualname__)
+        if depth > 200:
+            return ("too-deep",)
+        if isinstance(o, tuple):
+            return ("tuple",) + tuple(walk(x, depth + 1) for x in o)
+        if isinstance(o, frozenset):
+            return ("frozenset",) + tuple(sorted(repr(walk(x, depth + 1)) for x in o))
+        oid = id(o)
+        if oid in memo:
+            return ("ref", memo[oid])
+        memo[oid] = len(memo)
+        keep.append(o)
+        if isinstance(o, list):
+            return ("list",) + tuple(walk(x, depth + 1) for x in o)
+        if isinstance(o, dict) or type(o).__name__ == "mappingproxy":
+            return ("dict",) + tuple((walk(k, depth + 1), walk(v, depth + 1)) for k, v in o.items())
+        if isinstance(o, set):
+            return ("set",) + tuple(sorted(repr(walk(x, depth + 1)) for x in o))
+        if isinstance(o, BaseException):
+            pub = {k: v for k, v in (attrs(o) or {}).items() if not k.startswith("_")}
+            return ("exc", type(o).__qualname__, walk(tuple(o.args), depth + 1),
+                    tuple((k, walk(v, depth + 1)) for k, v in pub.items()))
+        for cls, names in table:
+            if isinstance(o, cls):
+                out = [("cls", type(o).__module__ + "." + type(o).__qualname__)]
+                for n in names:
+                    try:
+                        v = getattr(o, n)
+                    except Exception as e:  # noqa
+                        v = ("unreadable", type(e).__name__)
+                    if n == "blocks":
+                        v = list(v)          # a view may be a tuple / live sequence: the sequence of blocks is what counts
+                        out.append((n, ("list",) + tuple(walk(x, depth + 1) for x in v)))
+                        try:
+                            out.append(("entry_keys", tuple(sorted(map(str, o.entries_dict)))))
+                            out.append(("string_keys", tuple(sorted(map(str, o.strings_dict)))))
+                        except Exception:  # noqa
+                            pass
+                        continue
+                    out.append((n, walk(v, depth + 1)))
+                return tuple(out)
+        if callable(o) and attrs(o) is None:
+            return ("callable", getattr(o, "__qualname__", repr(type(o))))
+        d = attrs(o)
+        if d is not None:
+            return ("obj", type(o).__module__ + "." + type(o).__qualname__,
+                    tuple((k, walk(v, depth + 1)) for k, v in d.items()))
+        return ("opaque", type(o).__qualname__)
+
+    return walk(obj)
+
+
+def public_digest(obj, n=16):
+    return hashlib.sha256(repr(public_fingerprint(obj)).encode("utf-8", "surrogatepass")).hexdigest()[:n]
